@@ -140,7 +140,7 @@ struct Judge {
         if (!judgeManifold) { ++nUnprojected; return; }
         const bool stalled = !interpolated && !postEvent && s.getTime() - prevT < 1e-9 && std::string(status) == "TimeHasAdvanced";   // step size collapsed: the dynamics are (numerically) singular here
         if (stalled) run.count("stalled-steps(h<1e-9)/" + integ);
-        const std::string kind = std::string(interpolated ? "interpolated" : (postEvent ? "first-state-after-event-handling" : stalled ? "step-with-h-below-1e-9" : "step")) + "/" + integ;
+        const std::string kind = interpolated ? "interpolated" : (postEvent ? "first-state-after-event-handling" : stalled ? "step-with-h-below-1e-9" : "step");
         prevT = s.getTime();
         const Vector& e = s.getQErr(); const Vector& w = s.getQErrWeights();
         const int mq = M.matter.getNumQuaternionsInUse(s), mh = e.size() - mq;
@@ -151,9 +151,9 @@ struct Judge {
         const Vector& ve = s.getUErr(); const Vector& vw = s.getUErrWeights();
         std::vector<LD> v(ve.size()); for (int i = 0; i < ve.size(); ++i) v[i] = (LD)ve[i] * (LD)vw[i];
         if (run.verbose && getenv("C21_TRACE")) printf("    t=%.17g %-26s %s perr/tol=%.3g quat/tol=%.3g verr/tol=%.3g\n", s.getTime(), status, interpolated ? "I" : " ", (double)(normOf(a, inf) / tol), (double)(std::max(normOf(b, inf), normOf(c, inf)) / tol), (double)(normOf(v, inf) / tol));
-        run.residual("perr-norm/tolerance", (double)((normOf(a, inf) - NORM_ABS) / tol), 1 + NORM_REL, where, rp, kind + (S.touchesQuat ? "/constraint-on-quaternion-component" : ""));
-        run.residual("quaternion-norm/tolerance", (double)((std::max(normOf(b, inf), normOf(c, inf)) - NORM_ABS) / tol), 1 + NORM_REL, where, rp, kind);
-        run.residual("verr-norm/tolerance", (double)((normOf(v, inf) - NORM_ABS) / tol), 1 + NORM_REL, where, rp, kind);
+        run.residual("perr-norm/tolerance:" + integ, (double)((normOf(a, inf) - NORM_ABS) / tol), 1 + NORM_REL, where, rp, kind + (S.touchesQuat ? "/constraint-on-quaternion-component" : ""));
+        run.residual("quaternion-norm/tolerance:" + integ, (double)((std::max(normOf(b, inf), normOf(c, inf)) - NORM_ABS) / tol), 1 + NORM_REL, where, rp, kind);
+        run.residual("verr-norm/tolerance:" + integ, (double)((normOf(v, inf) - NORM_ABS) / tol), 1 + NORM_REL, where, rp, kind);
     }
 };
 
